@@ -1,0 +1,69 @@
+//go:build verif
+
+// Contracts for package signaling_rpc_client, checked by /verif (bfvc). Comment-only.
+package signaling_rpc_client
+
+// bcast guards the session state of a peer tracker. Whatever is held as the received message is
+// authentic and from the tracker's remote peer.
+//@ guards clientPeerTracker.bcast: open, out, outSent, outAcked, outCancel, recv, recvProcessed
+//@ lockinv clientPeerTracker.bcast: self.recv != nil ==> authenticFrom(self.recv, self.key)
+
+// ---- C19 ----
+// handleRecv (closure $3 of execute): the only place that installs a received message. It installs
+// exactly the message it was given, and only after that message verified and its signer's ID is the
+// remote peer of this tracker; otherwise it returns an error and changes nothing.
+//@ func (*clientPeerTracker).execute$3
+//@   noframe
+//@   nosweep nil-deref
+//@   cs clientPeerTracker.bcast ensures self.recv == msg && authenticFrom(msg, self.key) && !self.recvProcessed
+//@   cs clientPeerTracker.bcast ensures self.open == old(self.open) && self.out == old(self.out) && self.outSent == old(self.outSent) && self.outAcked == old(self.outAcked) && self.outCancel == old(self.outCancel)
+//@   cs clientPeerTracker.bcast ensures boundTo(msg, b58enc(s.c.peerID))
+
+// The other handlers (close, open, clear, ack) never install a message: the received message is kept
+// or dropped.
+//@ func (*clientPeerTracker).execute$1
+//@   noframe
+//@   nosweep nil-deref
+//@   cs clientPeerTracker.bcast ensures self.recv == nil && self.out == nil && self.open == nil
+//@ func (*clientPeerTracker).execute$2
+//@   noframe
+//@   nosweep nil-deref
+//@   cs clientPeerTracker.bcast ensures self.recv == old(self.recv) || self.recv == nil
+//@   cs clientPeerTracker.bcast ensures self.out == old(self.out)
+//@ func (*clientPeerTracker).execute$4
+//@   noframe
+//@   nosweep nil-deref
+//@   cs clientPeerTracker.bcast ensures self.recv == old(self.recv) || (self.recv == nil && old(self.recv) != nil && old(self.recv.Seqno) == msgSeqno)
+//@   cs clientPeerTracker.bcast ensures self.out == old(self.out) && self.open == old(self.open)
+//@ func (*clientPeerTracker).execute$5
+//@   noframe
+//@   nosweep nil-deref
+//@   cs clientPeerTracker.bcast ensures self.recv == old(self.recv) && self.open == old(self.open)
+//@   cs clientPeerTracker.bcast ensures (self.out != old(self.out) || self.outAcked != old(self.outAcked)) ==> old(self.out) != nil && old(self.out.Seqno) == msgSeqno
+
+// Recv hands the application exactly the message held by the tracker, once, and marks it processed:
+// so every message handed out is authentic and from the tracker's remote peer.
+//@ func (*ClientPeerRef).Recv
+//@   noframe
+//@   nosweep nil-deref
+//@   requires r.tkr != nil
+//@   loop 1 invariant recv == nil
+//@   cs clientPeerTracker.bcast ensures self.recv == old(self.recv) && (recv != nil ==> recv == self.recv && !old(self.recvProcessed) && self.recvProcessed)
+//@   ensures ret1 == nil ==> authenticFrom(ret0, old(r.tkr).key)
+
+// The tracker's main routine (its loop section acks a processed message and then drops it) and Send
+// never install a received message either.
+//@ func (*clientPeerTracker).execute
+//@   noframe
+//@   nosweep nil-deref
+//@   cs clientPeerTracker.bcast ensures self.recv == old(self.recv) || (self.recv == nil && old(self.recvProcessed))
+// C21 (client half): an ack is sent only for the received message that the application has taken
+// (Recv marked it processed), with exactly its sequence number, in the epoch read in the same section.
+//@   assert at call invoke.Send: istype(arg0.Body, ptr(signaling_rpc.SessionRequest_AckMsg)) ==> atlock(s.recv != nil && s.recvProcessed && s.open != nil) && unboxed(arg0.Body, ptr(signaling_rpc.SessionRequest_AckMsg)).AckMsg == atlock(s.recv.Seqno) && arg0.SessionSeqno == atlock(deref(s.open))
+//@ func (*ClientPeerRef).Send
+//@   noframe
+//@   nosweep nil-deref
+//@   requires r.tkr != nil
+//@   cs clientPeerTracker.bcast ensures self.recv == old(self.recv) && self.recvProcessed == old(self.recvProcessed)
+//@ func (*ClientPeerRef).Send$1
+//@   inline
